@@ -1,3 +1,4 @@
+import QmiModel.Model.PubSubDrv
 import Drv.Common
-/-! stub driver for C08: replaced when the model is built -/
-def main : IO Unit := Drv.main' (fun (s : Unit) _ => (s, "bad-op")) ()
+/-! C08 driver: replays subscription / removal / disconnect histories on `QmiModel.PubSub.step` and dumps the tables -/
+def main : IO Unit := Drv.main' QmiModel.PubSub.Drv.stepLine QmiModel.PubSub.State.init
